@@ -239,11 +239,11 @@ val t03 : q
 
 val t05 : q
 
-val dockq_formula : q -> q -> q -> q -> q -> q
-
 val levelb : nat -> q -> q -> q -> bool
 
 val capri_spec : q -> q -> q -> capri_class
+
+val dockq_formula : q -> q -> q -> q -> q -> q
 
 val vresS : string res -> v
 
